@@ -19,7 +19,7 @@ import (
 //	S<slot><a|b>  set the slot to content a / b (data groups through Document.NewDG, the others by assignment)
 //	C<slot>       remove the file
 //	E             export through Document.ToCbor, import, compare with the reference model (a map)
-//	X             export through DocumentEx{Document: *doc}.ToCbor (the struct is copied), import, compare
+//	X             export through the enclosing DocumentEx's ToCbor (one DocumentEx object for the whole history), import, compare
 //	W             the caller overwrites the blob returned by the previous export (it owns that buffer)
 type histOp struct {
 	Kind string `json:"op"` // S C E X W
@@ -116,7 +116,9 @@ func (o histOp) String() string {
 
 // runHistory executes the history on a fresh Document and checks every export against the model.
 func runHistory(h histRecipe) (key, what, outcome string, exports int, herr error) {
-	d := &document.Document{}
+	// ONE DocumentEx whose embedded Document is the object under test: both exporters see the same live object
+	ex := &document.DocumentEx{}
+	d := &ex.Document
 	m := &model{}
 	var last []byte
 	for step, op := range h.Ops {
@@ -156,7 +158,6 @@ func runHistory(h histRecipe) (key, what, outcome string, exports int, herr erro
 				if op.Kind == "E" {
 					blob, err = d.ToCbor()
 				} else {
-					ex := &document.DocumentEx{Document: *d}
 					blob, err = ex.ToCbor()
 				}
 			})
